@@ -269,17 +269,22 @@ Definition list_entry (cfg : config) (st : pstate) (a : aln) : option Z * option
         end
       else (None, None)
   end.
-Definition list_rec (cfg : config) (st : pstate) (k : Z) (a : aln) : list (Z * option Z * option Z * Z) :=
-  if a_secondary a || a_suppl a then [] else [(a_name a, fst (list_entry cfg st a), snd (list_entry cfg st a), k)].
+(* repaired rule: the line reports exactly the HP and PS written to the record *)
+Definition list_entry_fixed (cfg : config) (st : pstate) (a : aln) : option Z * option Z :=
+  let t := snd (out_rec cfg st a) in (fst (fst t), snd (fst t)).
+Definition list_rec (le : config -> pstate -> aln -> option Z * option Z)
+           (cfg : config) (st : pstate) (k : Z) (a : aln) : list (Z * option Z * option Z * Z) :=
+  if a_secondary a || a_suppl a then [] else [(a_name a, fst (le cfg st a), snd (le cfg st a), k)].
 
 (* a plan: for each processed chromosome (index, data) the alignments fetched, in the order written *)
 Definition plan := list (Z * chrom * list aln).
 
 Definition out_of_plan (cfg : config) (pl : plan) : list (Z * tags3) :=
   flat_map (fun x => let st := prepare cfg (c_samples (snd (fst x))) in map (out_rec cfg st) (snd x)) pl.
-Definition list_of_plan (cfg : config) (pl : plan) : list (Z * option Z * option Z * Z) :=
+Definition list_of_plan (le : config -> pstate -> aln -> option Z * option Z)
+           (cfg : config) (pl : plan) : list (Z * option Z * option Z * Z) :=
   flat_map (fun x => let st := prepare cfg (c_samples (snd (fst x))) in
-                     flat_map (list_rec cfg st (fst (fst x))) (snd x)) pl.
+                     flat_map (list_rec le cfg st (fst (fst x))) (snd x)) pl.
 
 (* normalize_user_regions, current: a dict chromosome -> regions in the order given *)
 Definition group_regions (l : list (Z * region)) : list (Z * list region) :=
@@ -320,9 +325,12 @@ Definition run_current (cfg : config) (chroms : list chrom) (user : option (list
        | None => out_of_plan cfg (plan_none chroms) ++ map (fun a => (a_id a, a_old a)) tail
        | Some l => out_of_plan cfg (plan_current chroms l)
        end.
-Definition list_current (cfg : config) (chroms : list chrom) (user : option (list (Z * region)))
+Definition list_run (le : config -> pstate -> aln -> option Z * option Z)
+           (pf : list chrom -> list (Z * region) -> plan)
+           (cfg : config) (chroms : list chrom) (user : option (list (Z * region)))
   : list (Z * option Z * option Z * Z) :=
-  list_of_plan cfg (match user with None => plan_none chroms | Some l => plan_current chroms l end).
+  list_of_plan le cfg (match user with None => plan_none chroms | Some l => pf chroms l end).
+Definition list_current := list_run list_entry plan_current.
 
 (* ------------------------------------------------------------------------------------------------ *)
 (* repaired region rule (candidate patch for F8): chromosomes in BAM order; regions of a chromosome
@@ -374,9 +382,7 @@ Definition run_fixed (cfg : config) (chroms : list chrom) (user : option (list (
        | None => out_of_plan cfg (plan_none chroms) ++ map (fun a => (a_id a, a_old a)) tail
        | Some l => out_of_plan cfg (plan_fixed chroms l)
        end.
-Definition list_fixed (cfg : config) (chroms : list chrom) (user : option (list (Z * region)))
-  : list (Z * option Z * option Z * Z) :=
-  list_of_plan cfg (match user with None => plan_none chroms | Some l => plan_fixed chroms l end).
+Definition list_fixed := list_run list_entry_fixed plan_fixed.
 
 (* ------------------------------------------------------------------------------------------------ *)
 (* executable specification side (restates the property text; evaluated on the implementation's output) *)
@@ -455,6 +461,10 @@ Definition tags_ok_chrom (cfg : config) (c : chrom) (alns : list aln) (out : lis
 (* the haplotag list agrees with the written records: one line (name, HP, PS) per primary record *)
 Definition list_of_records (outs : list aln) : list (Z * option Z * option Z) :=
   flat_map (fun a => if a_secondary a || a_suppl a then [] else [(a_name a, fst (fst (a_old a)), snd (fst (a_old a)))]) outs.
+(* the same on (alignment, written tags) pairs *)
+Definition list_of_written (w : list (aln * tags3)) : list (Z * option Z * option Z) :=
+  flat_map (fun x => if a_secondary (fst x) || a_suppl (fst x) then []
+                     else [(a_name (fst x), fst (fst (snd x)), snd (fst (snd x)))]) w.
 
 (* swap symmetry on two observed outputs: p is the permutation applied to the haplotype columns of
    phase set bs of sample k (new column j = old column p[j]); smp a = sample index of the alignment's read
